@@ -108,7 +108,7 @@ def programs(tier: str) -> list:
     d1 = depth1()
     for cid, src in d1:
         progs.append((cid, "expr", src))
-    inner = d1 if tier != "quick" else [x for x in d1 if x[0] in INNER_QUICK]
+    inner = d1   # (the quick tier used to take INNER_QUICK only; the full product costs 40 s and is now the quick tier)
     for cid, tpl in EXPR:
         n = slots(tpl)
         for s in range(n):
@@ -121,9 +121,30 @@ def programs(tier: str) -> list:
                     progs.append((f"{cid}[{s}]<-{iid}~esc", "expr", fill(tpl, fillers)))
                     fillers[s] = " " + isrc + " "
                 progs.append((f"{cid}[{s}]<-{iid}", "expr", fill(tpl, fillers)))
+    if tier != "quick":
+        # depth 3 over the operator core: outer[s] <- mid[t] <- inner, every slot (what precedence / parenthesisation bugs need)
+        core = [(cid, tpl) for cid, tpl in EXPR if cid in INNER_QUICK and slots(tpl) >= 1]
+        d1map = dict(d1)
+        for cid, tpl in core:
+            n = slots(tpl)
+            for s_ in range(n):
+                for mid, mtpl in core:
+                    m = slots(mtpl)
+                    for t_ in range(m):
+                        for iid in sorted(INNER_QUICK):
+                            if iid not in d1map:
+                                continue
+                            mf = [ATOMS[i % len(ATOMS)] for i in range(m)]
+                            mf[t_] = d1map[iid]
+                            msrc = fill(mtpl, mf)
+                            if (cid.startswith("fstr") or mid.startswith("fstr")) and ("{" in d1map[iid] or "{" in msrc[:1] or msrc.endswith("}")):
+                                continue
+                            of = [ATOMS[i % len(ATOMS)] for i in range(n)]
+                            of[s_] = msrc
+                            progs.append((f"{cid}[{s_}]<-{mid}[{t_}]<-{iid}", "expr", fill(tpl, of)))
     # statements: expression slots get one plain and (thorough) a few structured expressions, blocks get simple bodies or another compound statement
     d1_by_src = {src: cid for cid, src in d1}
-    exprs_for_stmt = ["a", "a + 1"] if tier == "quick" else ["a", "a + 1", "f(a, 1)", "f(k=a)", "lambda q, r=2: a", "[a for q in 1]", 'f"{a}"']
+    exprs_for_stmt = ["a", "a + 1", "f(a, 1)", "f(k=a)", "lambda q, r=2: a", "[a for q in 1]", 'f"{a}"']
     blocks1 = ["    pass"]
     for sid, tpl in STMT:
         for e in exprs_for_stmt:
@@ -133,7 +154,7 @@ def programs(tier: str) -> list:
                 progs.append((pid, "stmt", tpl.replace("{e}", e).replace("{b}", b)))
     # block depth 2: every compound statement inside every block slot of every compound statement
     compound = [(sid, tpl) for sid, tpl in STMT if "{b}" in tpl]
-    inner_c = compound if tier != "quick" else compound[::3]
+    inner_c = compound
     for sid, tpl in compound:
         for iid, itpl in inner_c:
             body = itpl.replace("{e}", "a").replace("{b}", "    v = 1")
@@ -266,13 +287,12 @@ def culprit(pid: str, bad_d1: set) -> str:
     if pid.endswith("~esc"):
         # the program contains escaped braces next to a replacement field: the construct 'fstr_braces'
         return "fstr_braces" if "fstr_braces" in bad_d1 else pid
-    m = re.match(r"^(.*)\[(\d)\]<-(.*)$", pid)
-    if m:
-        outer, _, inner = m.groups()
-        if outer in bad_d1:
-            return outer
-        if inner in bad_d1:
-            return inner
+    if "<-" in pid:
+        # outer[s]<-mid[t]<-inner (two or three levels): the outermost construct that fails by itself
+        for part in pid.split("<-"):
+            name = re.sub(r"\[\d\]$", "", part)
+            if name in bad_d1:
+                return name
         return pid  # a genuine combination (precedence) failure
     m = re.match(r"^([^{:]*)\{(.*)\}$", pid)
     if m:
